@@ -57,7 +57,7 @@ OWN_ERRORS = [
     ("ValueError", r"Missing MQ protein groups file input", "missing_mq_protein_groups"),
     ("ValueError", r"Column None is missing", "no_score_column"),
     ("ValueError", r"Unknown pickedStrategy .*'picked', 'picked_group' or 'classic'", "unknown_picked"),
-    ("ValueError", r"Unknown pickedStrategy .*'no', 'subset' or 'rescued_subset'", "unknown_grouping"),
+    ("ValueError", r"Unknown (pickedStrategy|grouping) .*'no', 'subset' or 'rescued_subset'", "unknown_grouping"),
     ("NotImplementedError", r"^$", "unknown_score"),
     ("KeyError", r"^'(pickedStrategy|scoreType|grouping|sharedPeptides|label)'$", "missing_key"),
 ]
@@ -360,9 +360,18 @@ class P(Prop):
 
     def _field(self, rng, k):
         if k == "scoreType":
-            n = rng.choice([1, 1, 2, 2, 3, 4])
-            toks = [rng.choice(self.SCORE_TOKENS) if rng.random() < 0.8 else rng.choice(self.NOISE) for _ in range(n)]
-            return rng.choice([" ", " ", " ", "", "_"]).join(toks)
+            toks = []
+            if rng.random() < 0.88:
+                toks.append(rng.choice(["multPEP", "bestPEP", "bestPEP", "Andromeda", "MQ_protein"]))
+            if rng.random() < 0.7:
+                toks += rng.choice([["Perc"], ["Perc", "remap"], ["Perc", "no_remap"], ["no_remap"], ["remap"], ["FragPipe"], ["Sage"], ["DIA-NN"], ["Sage", "Perc"], ["DIA-NN", "FragPipe"]])
+            for extra in ("razor", "with_shared"):
+                if rng.random() < 0.12:
+                    toks.append(extra)
+            for _ in range(rng.choice([0, 0, 0, 1, 2])):
+                toks.append(rng.choice(self.SCORE_TOKENS) if rng.random() < 0.5 else rng.choice(self.NOISE))
+            rng.shuffle(toks)
+            return rng.choice([" ", " ", " ", " ", "", "_"]).join(toks)
         if k == "grouping":
             return rng.choice(self.GROUPINGS) if rng.random() < 0.88 else rng.choice(["", "rescued", "subset ", "No", "none", "pseudo"])
         if k == "pickedStrategy":
@@ -550,15 +559,47 @@ class P(Prop):
         finally:
             shutil.rmtree(d, ignore_errors=True)
 
+    def _all_subcases(self, case):
+        """kind cli_all: one run per shipped method of the tree under test, all on the case's data set"""
+        sm = self._shipped()
+        subs = []
+        for n in sorted(sm):
+            t = sm[n]
+            st = t.get("scoreType", "") if isinstance(t.get("scoreType", ""), str) else ""
+            if t.get("sharedPeptides") == "razor":
+                st += " razor"
+            subs.append(
+                {"kind": "cli", "what": "shipped", "methods": [{"name": n}], "supply": [input_of_score_type(st)], "fasta": True,
+                 "perc_split": bool(case.get("perc_split", False)), "data": case["data"], "expect": "tables", "expect_tables": 1}
+            )
+        return subs
+
     def run_impl(self, case):
         if case["kind"] == "cfg":
             return self._run_cfg(case)
+        if case["kind"] == "cli_all":
+            subs = self._all_subcases(case)
+            with ThreadPoolExecutor(max_workers=16) as ex:
+                outs = list(ex.map(lambda c: lib._safe(self._run_cli, c), subs))
+            runs, rec = {}, {}
+            for c, o in zip(subs, outs):
+                n = c["methods"][0]["name"]
+                runs[n] = {k: v for k, v in o.items() if k != "_rec"} if isinstance(o, dict) else o
+                why = self._oracle_cli(c, o) if isinstance(o, dict) and "exc" not in o else "harness could not run it: %r" % (o,)
+                if why is not None:
+                    r = (o.get("_rec") or {}) if isinstance(o, dict) else {}
+                    rec[n] = {"why": why, "cmd": r.get("cmd"), "stderr_tail": r.get("stderr_tail")}
+            files, _ = render_inputs(case["data"], INPUTS, bool(case.get("perc_split", False)))
+            files["db.fasta"] = render_fasta(case["data"])
+            return {"runs": runs, "_rec": {"failing": rec, "files": files}}
         return self._run_cli(case)
 
     # ------------------------------------------------------------------ the model
     def model_request(self, case, impl_out):
         if case["kind"] == "cfg":
             return {"op": "method", "methods": [{"toml": case["toml"]}], "use_genes": case["use_genes"], "supplied": case["supplied"]}
+        if case["kind"] == "cli_all":
+            return [self.model_request(c, None) for c in self._all_subcases(case)]
         sup = {k: (k in case["supply"]) for k in INPUTS}
         sup["map"] = bool(case.get("fasta", True))
         sup["mq_groups"] = False
@@ -569,6 +610,9 @@ class P(Prop):
             if "err" in resp:
                 return resp
             return {"cfgs": resp["cfgs"], "outcomes": resp["outcomes"]}
+        if case["kind"] == "cli_all":
+            subs = self._all_subcases(case)
+            return {"runs": {c["methods"][0]["name"]: self.model_view(c, r, None) for c, r in zip(subs, resp)}}
         if "proto_err" in resp:
             return resp
         if "err" in resp:
@@ -593,6 +637,12 @@ class P(Prop):
             return "harness could not run the case: %s %s" % (impl_out["exc"], impl_out.get("msg"))
         if case["kind"] == "cfg":
             return self._oracle_cfg(case, impl_out)
+        if case["kind"] == "cli_all":
+            bad = (impl_out.get("_rec") or {}).get("failing") or {}
+            if not bad:
+                return None
+            first = sorted(bad)[0]
+            return "%d of the %d shipped methods fail on this data set (%s); e.g. %s" % (len(bad), len(impl_out["runs"]), ", ".join(sorted(bad)), bad[first]["why"][:400])
         return self._oracle_cli(case, impl_out)
 
     def _internal(self, tag):
@@ -626,7 +676,7 @@ class P(Prop):
             return "%s ends with an internal error (%s) instead of a table or the tool's own refusal: %s" % (
                 self._describe(case),
                 out["err"][9:],
-                rec.get("stderr_tail", "")[-400:],
+                (rec.get("stderr_tail", "").splitlines() or [""])[-1][:300],
             )
         exp = case.get("expect")
         if exp == "tables":
@@ -663,6 +713,8 @@ class P(Prop):
             return False
         if case["kind"] == "cfg":
             return "cfgs" in impl_out
+        if case["kind"] == "cli_all":
+            return True
         return bool(impl_out.get("written")) or bool(impl_out.get("skipped")) or impl_out.get("err") in ("rescue_unsupported", "missing_mq_protein_groups", "no_score_column")
 
     def features(self, case, impl_out):
@@ -683,6 +735,8 @@ class P(Prop):
                     f.append("cfg:razor")
                 if case["use_genes"]:
                     f.append("cfg:pseudo_gene_override")
+        elif case["kind"] == "cli_all":
+            f.append("cli_all:methods=%d" % len(impl_out.get("runs", {})))
         else:
             f.append("cli:" + case.get("what", "?"))
             f.append("cli:err=%s" % impl_out.get("err"))
@@ -709,6 +763,8 @@ class P(Prop):
             for k in INPUTS:
                 if sup[k] and sum(sup[x] for x in INPUTS) > 1:
                     yield dict(case, supplied=dict(sup, **{k: False}))
+        elif case["kind"] == "cli_all":
+            return
         else:
             if case["data"] != TINY:
                 yield dict(case, data=TINY)
@@ -717,10 +773,6 @@ class P(Prop):
                     c = dict(case, methods=case["methods"][:i] + case["methods"][i + 1 :])
                     c.pop("expect_tables", None)
                     yield c
-            psms = case["data"]["psms"]
-            if len(psms) > 2:
-                for i in range(len(psms)):
-                    yield dict(case, data=dict(case["data"], psms=psms[:i] + psms[i + 1 :]))
 
     # ------------------------------------------------------------------ the command-line stage
     def cli_cases(self, tier, seed):
@@ -828,6 +880,22 @@ class P(Prop):
                 "expect_tables": 1,
             }
         )
+        # gene-level run on a FASTA without gene names: every method falls back to pseudo-gene grouping
+        for n in rng.sample(names, 2 if tier == "quick" else 8):
+            cases.append(
+                {
+                    "kind": "cli",
+                    "what": "gene-level-pseudo-genes",
+                    "methods": [{"name": n}],
+                    "supply": [input_of_score_type(st_of(n))],
+                    "fasta": True,
+                    "flags": ["--gene_level"],
+                    "use_genes": True,
+                    "data": gen_data(rng),
+                    "expect": "tables",
+                    "expect_tables": 1,
+                }
+            )
         # a refused method after a completed one: the first table stays, the run ends with the tool's message
         cases.append(
             {
@@ -892,12 +960,19 @@ class P(Prop):
             "shipped_methods_measured": len(self._shipped()),
             "tables_checked": sum(len(o.get("written", [])) for o in outs if isinstance(o, dict)),
             "failing_runs": sum(len(v) for v in failures.values()),
+            "failing_signatures": [
+                {"error": sig[1], "detail": sig[2], "runs": len(lst), "methods": sorted({",".join(m.get("name", "<custom>") for m in x[0]["methods"]) for x in lst})}
+                for sig, lst in failures.items()
+            ],
         }
         return {"evaluations": len(cases), "failures": out_f, "info": info}
 
     # ------------------------------------------------------------------ known-finding predicates (offered to known_findings.json)
     def razor_filter_before_counts(self, case, impl_out, rec):
         """§9 item 6: a razor method dies with AttributeError peptide_counts_per_protein while parsing evidence"""
+        if case.get("kind") == "cli_all" and isinstance(impl_out, dict):
+            bad = (impl_out.get("_rec") or {}).get("failing") or {}
+            return bool(bad) and all("peptide_counts_per_protein" in (b.get("stderr_tail") or "") for b in bad.values())
         return (
             case.get("kind") == "cli"
             and isinstance(impl_out, dict)
